@@ -576,8 +576,16 @@ func runC05(c *Check) {
 			for _, h := range handleTx {
 				obj := h.CC.Args[len(h.CC.Args)-1]
 				var unsafeStores, safeFalse []ssa.Instruction
+				selfOr := map[ssa.Instruction]ssa.Value{}
+				noConf := upperBoundEdge(func(v ssa.Value) bool { x := lenOf(v); return x != nil && isConflicts(x) }, 0)
 				for _, s := range ta.stateStores(fn) {
 					if !sameObject(s.Obj, obj) {
+						continue
+					}
+					if cnd := selfOrCond(s.St); cnd != nil && s.Field == ta.unsafe {
+						// `UnSafe = UnSafe || c` is `if c { UnSafe = true }`
+						unsafeStores = append(unsafeStores, s.St)
+						selfOr[s.St] = cnd
 						continue
 					}
 					if b, isC := isConstBool(s.St.Val); isC {
@@ -592,12 +600,29 @@ func runC05(c *Check) {
 				// every path from the "conflicts non-empty" edge nearest to the save must set UnSafe
 				okU := len(unsafeStores) > 0
 				for _, st := range unsafeStores {
+					if cnd, has := selfOr[st]; has {
+						if !hasConf(&ssa.If{Cond: cnd}, 0) {
+							okU = false
+						}
+						continue
+					}
 					if ok, _ := mustPass(st, hasConf); !ok {
 						okU = false
 					}
 				}
 				// must-pass-through: HandleTx unreachable when conflicts non-empty unless an UnSafe=true store executed
-				okThrough := c.conflictImpliesStore(fn, h.Instr, hasConf, unsafeStores)
+				okThrough := false
+				for st, cnd := range selfOr {
+					// the unconditional `UnSafe = UnSafe || c` with c exactly "there are conflicts", on every path to the delivery
+					if hasConf(&ssa.If{Cond: cnd}, 0) && noConf(&ssa.If{Cond: cnd}, 1) {
+						if pre, _ := alwaysPrecededBy(h.Instr, []ssa.Instruction{st}); pre {
+							okThrough = true
+						}
+					}
+				}
+				if !okThrough {
+					okThrough = c.conflictImpliesStore(fn, h.Instr, hasConf, unsafeStores)
+				}
 				c.Decide(okU && okThrough, "R6", "spynode.(*Node).processUnconfirmedTx#new-tx-unsafe-iff-conflicts", h.Pos(), "edge-cutset", nil,
 					"the delivered state gets UnSafe=true exactly on the paths where AddTransaction reported conflicts",
 					"a new tx with conflicts can be delivered without UnSafe=true (or UnSafe is set without conflicts)")
@@ -713,6 +738,8 @@ func runC05(c *Check) {
 	c.ruleSpliceRemovesOne("R11", 1, "state")
 	c.ruleNewEntriesRegistered("R12")
 	c.ruleAccumulatorNeverAliasesIndex("R13")
+	c.ruleEveryInputRegistered("R14")
+	c.ruleAddingNeverEvicts("R15")
 
 	// ---- R7 lockset
 	c.lockset("R7", "state", "MemPool", "mutex", c.structFields("state", "MemPool", "mutex"), []string{"state"}, nil, 20)
